@@ -24,4 +24,7 @@ func runC15(r *oblig.Report) {
 		return
 	}
 	e6modfile.Run(p, r)
+	// an accepted path list is the caller's: nothing shared between calls (a pool or cache) may back it
+	cc := &Ctx{P: p, R: r}
+	noPackageState(p, r, cc.Reach(cc.Entries("transformer.TransformModFile")))
 }
